@@ -40,6 +40,23 @@ func txFieldsLine(f txFields) string {
 	} else {
 		fmt.Fprintf(&b, " %s", txWire(*f.ref))
 	}
+	if len(f.tags) > 0 {
+		fmt.Fprintf(&b, " G %d", len(f.tags))
+		for _, t := range f.tags {
+			fmt.Fprintf(&b, " %d", len(t.path))
+			for _, sg := range t.path {
+				if sg.isIdx {
+					fmt.Fprintf(&b, " i %d", sg.idx)
+				} else {
+					fmt.Fprintf(&b, " k %s", txWire(sg.key))
+				}
+			}
+			fmt.Fprintf(&b, " %c", t.leaf)
+			if t.leaf == 's' {
+				fmt.Fprintf(&b, " %s", txWire(t.str))
+			}
+		}
+	}
 	return b.String()
 }
 
@@ -101,6 +118,19 @@ func txCaseLine(c *txCase) string {
 			}
 		}
 	}
+	if len(c.regsD) > 0 || len(c.ixD) > 0 {
+		parts = append(parts, "D", fmt.Sprint(len(c.regsD)))
+		for _, r := range c.regsD {
+			parts = append(parts, txRegLine(r))
+		}
+		parts = append(parts, fmt.Sprint(len(c.ixD)))
+		for _, vs := range c.ixD {
+			parts = append(parts, fmt.Sprint(len(vs)))
+			for _, v := range vs {
+				parts = append(parts, fmt.Sprintf("%c %s", v.stage, txWire(v.id)))
+			}
+		}
+	}
 	parts = append(parts, "T", fmt.Sprint(len(c.txs)))
 	for _, tx := range c.txs {
 		reuse := 0
@@ -119,6 +149,37 @@ func txCaseLine(c *txCase) string {
 
 func sp(s string) *string { return &s }
 
+func tk(k string) txTagSeg { return txTagSeg{key: k} }
+func ti(i int) txTagSeg    { return txTagSeg{isIdx: true, idx: i} }
+
+// a tags value every setter accepts: strings, bools, nil, a list, a list inside a nested map, an empty map,
+// an empty list
+func txGoodTags() []txTag {
+	return []txTag{
+		{path: []txTagSeg{tk("a")}, leaf: 's', str: "x"},
+		{path: []txTagSeg{tk("l"), ti(0)}, leaf: 's', str: "y"},
+		{path: []txTagSeg{tk("l"), ti(1)}, leaf: 't'},
+		{path: []txTagSeg{tk("m"), tk("q"), ti(0)}, leaf: 'n'},
+		{path: []txTagSeg{tk("m"), tk("e")}, leaf: 'm'},
+		{path: []txTagSeg{tk("z")}, leaf: 'l'},
+	}
+}
+
+// tags values the typed-bucket setters reject — no injection, the value itself is the cause: a value of an
+// unsupported type directly in the map (depth 0), as last element of a list after a good one (depth 1), as first
+// element of a list inside a nested map with good values following (depth 2), a []string (not a []interface{})
+// inside a list; an empty and an over-long map key
+var txBadTags = map[string][]txTag{
+	"tagbad0": {{path: []txTagSeg{tk("b")}, leaf: 'u'}},
+	"tagbad1": {{path: []txTagSeg{tk("l"), ti(0)}, leaf: 's', str: "y"}, {path: []txTagSeg{tk("l"), ti(1)}, leaf: 'u'}},
+	"tagbad2": {{path: []txTagSeg{tk("m"), tk("q"), ti(0)}, leaf: 'u'}, {path: []txTagSeg{tk("m"), tk("q"), ti(1)}, leaf: 's', str: "a"},
+		{path: []txTagSeg{tk("m"), tk("q"), ti(2)}, leaf: 't'}},
+	"tagbadS":     {{path: []txTagSeg{tk("l"), ti(0)}, leaf: 's', str: "a"}, {path: []txTagSeg{tk("l"), ti(1)}, leaf: 'S'}, {path: []txTagSeg{tk("l"), ti(2)}, leaf: 's', str: "d"}},
+	"tagkeyempty": {{path: []txTagSeg{tk("")}, leaf: 's', str: "a"}},
+	"tagkeybig":   {{path: []txTagSeg{tk(strings.Repeat("x", 32769))}, leaf: 's', str: "a"}},
+}
+var txBadTagKinds = []string{"tagbad0", "tagbad1", "tagbad2", "tagbadS", "tagkeyempty", "tagkeybig"}
+
 var txBig32769 = strings.Repeat("x", 32769)
 var txBig32768 = strings.Repeat("y", 32768)
 var txBig32767 = strings.Repeat("z", 32767)
@@ -129,6 +190,10 @@ func opCreate(store byte, id, name string, roles []string, ref *string, rank str
 func opUpdate(store byte, id, name string, roles []string, ref *string, rank string) txStep {
 	return txStep{kind: "op", fault: "-", op: "up", store: store, id: id, f: txFields{name: name, roles: roles, ref: ref}, rank: rank}
 }
+func withTags(s txStep, tags []txTag) txStep {
+	s.f.tags = tags
+	return s
+}
 func opDelete(store byte, id string) txStep {
 	return txStep{kind: "op", fault: "-", op: "de", store: store, id: id}
 }
@@ -136,15 +201,23 @@ func opDeleteWhere(store byte, query, qname string) txStep {
 	return txStep{kind: "op", fault: "-", op: "dw", store: store, query: query, qname: qname}
 }
 
-// base population: p1 plain (name n1, roles [r]), referenced by c1; c1 with child data (name n2, ref p1,
-// rank k1); p4 plain, not referenced (name n0, roles [t])
+// base population: p1 plain (name n1, roles [r]), referenced by c1; c1 with data in the first child store (name
+// n2, ref p1, rank k1); p4 plain, not referenced (name n0, roles [t]); d1 with data in the second child store only
+// (name nd, grade g1); b1 with data in BOTH child stores (created through C, then through D over it: name nb,
+// rank k7, grade g7)
 func txSetupTx() txTx {
 	return txTx{mode: 'u', steps: []txStep{
 		opCreate('P', "p1", "n1", []string{"r"}, nil, ""),
 		opCreate('C', "c1", "n2", nil, sp("p1"), "k1"),
 		opCreate('P', "p4", "n0", []string{"t"}, nil, ""),
+		opCreate('D', "d1", "nd", nil, nil, "g1"),
+		opCreate('C', "b1", "nb0", nil, nil, "k7"),
+		opCreate('D', "b1", "nb", []string{"t"}, nil, "g7"),
 	}}
 }
+
+// the ids the setup transaction creates, with the stores whose create flow it fires for them
+var txSetupCreates = map[string]string{"p1": "P", "c1": "PC", "p4": "P", "d1": "PD", "b1": "PCD"}
 
 // listeners of every registration style and kind on both stores, plus a constraint that never vetoes
 func txObservers() []txReg {
@@ -161,9 +234,9 @@ func txObservers() []txReg {
 // a natural one and just as welcome)
 func txGoodOps() []txStep {
 	return []txStep{
-		opCreate('P', "p2", "n3", []string{"s"}, nil, ""),
-		opCreate('C', "c2", "n4", []string{"s", "r"}, sp("p1"), "k2"),
-		opUpdate('P', "p1", "n5", []string{"r", "s"}, nil, ""),
+		withTags(opCreate('P', "p2", "n3", []string{"s"}, nil, ""), txGoodTags()),
+		withTags(opCreate('C', "c2", "n4", []string{"s", "r"}, sp("p1"), "k2"), txGoodTags()[:3]),
+		withTags(opUpdate('P', "p1", "n5", []string{"r", "s"}, nil, ""), txGoodTags()[3:]),
 		opUpdate('P', "c1", "n6", nil, sp("p1"), ""),
 		opUpdate('C', "c1", "n2", []string{"r"}, nil, "k9"),
 		opDelete('P', "c1"),
@@ -178,6 +251,19 @@ func txGoodOps() []txStep {
 		opDeleteWhere('C', "all", ""),
 		opDeleteWhere('P', "name", "n2"),
 		opDeleteWhere('P', "all", ""),
+		// the second child store: data over a plain parent, over an entity of the first child store; an entity with
+		// data in both child stores updated through the parent store (the first child store performs it) and through
+		// the second one, deleted through the parent and through the second child store; an entity of the second
+		// child store only updated through the parent, deleted through the FIRST child store
+		opCreate('D', "p4", "n7", []string{"t"}, nil, "g5"),
+		opCreate('D', "c1", "n2", nil, sp("p1"), "g6"),
+		opUpdate('P', "b1", "nb2", []string{"s"}, nil, ""),
+		opUpdate('D', "b1", "nb3", nil, nil, "g8"),
+		opUpdate('P', "d1", "nd2", nil, nil, ""),
+		opDelete('P', "b1"),
+		opDelete('D', "b1"),
+		opDelete('C', "d1"),
+		opDeleteWhere('D', "all", ""),
 	}
 }
 
@@ -191,10 +277,19 @@ var txFailKinds = []string{
 	// on the child store (ixC) vetoes the operation's id in ProcessBeforeUpdate (b), ProcessAfterUpdate (a),
 	// ProcessBeforeDelete (d); upper case: with a *boltz.RecordNotFoundError
 	"ixPb", "ixPa", "ixPd", "ixCb", "ixCa", "ixCd", "ixPB", "ixPA", "ixPD", "ixCB", "ixCA", "ixCD",
+	// the second child store: entity constraint veto on its flow (plain / RecordNotFoundError), index-stage vetoes
+	"vetoD", "vetoDnf", "ixDb", "ixDa", "ixDd", "ixDB", "ixDA", "ixDD",
+	// the tags map of the written entity holds a value the typed-bucket setters reject (nothing injected)
+	"tagbad0", "tagbad1", "tagbad2", "tagbadS", "tagkeyempty", "tagkeybig",
 }
 
-// the entity a DeleteWhere of the good operations deletes first on the base population
-const txDeleteWhereFirst = "c1"
+// the entity a DeleteWhere of the good operations deletes first on the base population (ids in order: b1 c1 d1 p1 p4)
+func txDeleteWhereFirst(s txStep) string {
+	if s.query == "name" {
+		return "c1"
+	}
+	return "b1"
+}
 
 func txOpKindChar(s txStep) byte {
 	switch s.op {
@@ -219,7 +314,7 @@ func txInject(c *txCase, body []txStep, i int, kind string) ([]txStep, bool) {
 	write := s.op == "cr" || s.op == "up"
 	vetoId := s.id
 	if s.op == "dw" {
-		vetoId = txDeleteWhereFirst
+		vetoId = txDeleteWhereFirst(s)
 	}
 	switch kind {
 	case "caller":
@@ -298,14 +393,29 @@ func txInject(c *txCase, body []txStep, i int, kind string) ([]txStep, bool) {
 			style = 'T'
 		}
 		c.regsC = append(c.regsC, txReg{style: style, vetoes: []txVeto{{kind: txOpKindChar(s), id: vetoId}}})
-	case "ixPb", "ixPa", "ixPd", "ixCb", "ixCa", "ixCd", "ixPB", "ixPA", "ixPD", "ixCB", "ixCA", "ixCD":
+	case "vetoD", "vetoDnf":
+		style := byte('t')
+		if kind == "vetoDnf" {
+			style = 'U'
+		}
+		c.regsD = append(c.regsD, txReg{style: style, vetoes: []txVeto{{kind: txOpKindChar(s), id: vetoId}}})
+	case "ixPb", "ixPa", "ixPd", "ixCb", "ixCa", "ixCd", "ixPB", "ixPA", "ixPD", "ixCB", "ixCA", "ixCD",
+		"ixDb", "ixDa", "ixDd", "ixDB", "ixDA", "ixDD":
 		// next to a constraint that never objects, so that the vetoing one is not the first of its store
 		reg := []txIxVeto{{stage: kind[3], id: vetoId}}
-		if kind[2] == 'P' {
+		switch kind[2] {
+		case 'P':
 			c.ixP = append(c.ixP, nil, reg)
-		} else {
+		case 'C':
 			c.ixC = append(c.ixC, reg, nil)
+		default:
+			c.ixD = append(c.ixD, nil, reg)
 		}
+	case "tagbad0", "tagbad1", "tagbad2", "tagbadS", "tagkeyempty", "tagkeybig":
+		if !write {
+			return nil, false
+		}
+		s.f.tags = txBadTags[kind]
 	case "lP1", "lP2", "lP3", "lC1", "lC2", "pP1", "pC1":
 		s.fault = kind
 	case "badquery":
@@ -326,12 +436,13 @@ var txExactKinds = map[string]bool{"vetoP": true, "vetoC": true, "vetoPtyped": t
 	"blank": true, "exists": true, "missing": true, "badquery": true,
 	// an index-stage veto before the update leaves everything as it was, one after the write leaves
 	// everything written (one before the delete comes after the built-in indexes removed their entries)
-	"ixPb": true, "ixPa": true, "ixCb": true, "ixCa": true, "ixPB": true, "ixPA": true, "ixCB": true, "ixCA": true}
+	"ixPb": true, "ixPa": true, "ixCb": true, "ixCa": true, "ixPB": true, "ixPA": true, "ixCB": true, "ixCA": true,
+	"vetoD": true, "vetoDnf": true, "ixDb": true, "ixDa": true, "ixDB": true, "ixDA": true}
 
 // txFaultCase: setup tx, then the faulty body in the given mode (with a commit action registered at
 // its start and a harmless pre-commit action), then a follow-up transaction that must still work.
 func txFaultCase(body []txStep, pos int, kind string, mode byte, reuse bool, swallow bool) (string, bool) {
-	c := &txCase{regsP: txObservers(), regsC: txObservers(), txl: 2}
+	c := &txCase{regsP: txObservers(), regsC: txObservers(), regsD: txObservers()[2:], txl: 2}
 	steps, ok := txInject(c, body, pos, kind)
 	if !ok {
 		return "", false
@@ -346,11 +457,19 @@ func txFaultCase(body []txStep, pos int, kind string, mode byte, reuse bool, swa
 		if steps[pos].op == "cr" && (kind == "ixPb" || kind == "ixPB") {
 			return "", false
 		}
-		// a veto on the create of p4 on the parent store's side also strikes the setup transaction: the
-		// operation then meets an empty database and may fail in the middle of its writes
-		if steps[pos].op == "cr" && steps[pos].id == "p4" &&
-			(strings.HasPrefix(kind, "vetoP") || kind == "ixPa" || kind == "ixPA") {
-			return "", false
+		// a veto on the create of an id the setup transaction creates also strikes that transaction when it is
+		// registered on a store whose create flow the setup fires for the id: the operation then meets an empty
+		// database and may fail in the middle of its writes
+		if steps[pos].op == "cr" && (strings.HasPrefix(kind, "veto") || (strings.HasPrefix(kind, "ix") && (kind[3] == 'a' || kind[3] == 'A'))) {
+			level := kind[len(kind)-1]
+			if strings.HasPrefix(kind, "veto") {
+				level = kind[4]
+			} else {
+				level = kind[2]
+			}
+			if strings.IndexByte(txSetupCreates[steps[pos].id], level) >= 0 {
+				return "", false
+			}
 		}
 		// the swallowed failure must be the injected one: a write that goes on must not fail for a missing
 		// fk target (its ref is dropped), a delete not for a reference to the entity (p1 is referenced by c1)
@@ -383,7 +502,19 @@ func txEnumFaults(n int, modes []byte, emit func(string)) {
 // route that has a child flow, and the plain-parent counterparts
 func txCoreOps() []txStep {
 	ops := txGoodOps()
-	return []txStep{ops[0], ops[1], ops[3], ops[5], ops[8], ops[13]}
+	return []txStep{ops[0], ops[1], ops[3], ops[5], ops[17], ops[21]}
+}
+
+// the alphabet of the exhaustive two-operation bodies: creates, updates, deletes and DeleteWhere through each of the
+// three stores, on plain entities, on entities of one child store and on the entity with data in both
+func txPairOps() []txStep {
+	ops := txGoodOps()
+	idx := []int{0, 1, 3, 4, 5, 8, 9, 11, 13, 16, 17, 18, 22, 24}
+	res := make([]txStep, len(idx))
+	for i, k := range idx {
+		res[i] = ops[k]
+	}
+	return res
 }
 
 func txEnumFaultsOver(ops []txStep, n int, modes []byte, emit func(string)) {
@@ -469,11 +600,17 @@ func txRandomIxRegs(r *rng, max int, ids []string, safe bool) [][]txIxVeto {
 
 var txIdsP = []string{"p1", "p2", "p3"}
 var txIdsC = []string{"c1", "c2"}
-var txIdsAll = []string{"p1", "p2", "p3", "c1", "c2"}
+var txIdsD = []string{"d1", "d2"}
+var txIdsAll = []string{"p1", "p2", "p3", "c1", "c2", "b1", "d1"}
 
 func txRandomFields(r *rng, p txProfile, safe bool, id string) txFields {
 	f := txFields{}
 	names := []string{"n1", "n2", "n3", "n4", "n5", "n6"}
+	if r.chance(1, 4) {
+		g := txGoodTags()
+		// well-formed parts of it (list indexes stay contiguous)
+		f.tags = pick(r, [][]txTag{g, g[:1], g[1:3], g[1:], g[3:], g[4:], g[5:]})
+	}
 	if safe {
 		f.name = "s_" + id
 		f.roles = pick(r, [][]string{nil, {"r"}, {"s", "r"}, {"r", "r"}})
@@ -483,7 +620,9 @@ func txRandomFields(r *rng, p txProfile, safe bool, id string) txFields {
 	f.roles = pick(r, [][]string{nil, nil, {"r"}, {"s", "r"}, {"r", "r", "t"}, {txBig32767}})
 	f.ref = pick(r, []*string{nil, nil, nil, sp("p1"), sp("c1"), sp("p2"), sp(id), sp("")})
 	if r.intn(100) < p.failBias {
-		switch r.intn(7) {
+		switch r.intn(8) {
+		case 7:
+			f.tags = txBadTags[pick(r, txBadTagKinds)]
 		case 0:
 			f.name = ""
 		case 1:
@@ -537,9 +676,17 @@ func txRandomOp(r *rng, p txProfile, safe bool, live txLive) txStep {
 	var s txStep
 	switch r.intn(10) {
 	case 0, 1, 2:
-		if r.chance(1, 2) {
+		if r.chance(1, 3) {
 			id := live.pickAbsent(r, txIdsP)
 			s = txStep{kind: "op", op: "cr", store: 'P', id: id, f: txRandomFields(r, p, safe, id)}
+		} else if r.chance(1, 2) {
+			// the second child store: from scratch, or (not in a case with swallowed errors) over an existing entity,
+			// plain or with data in the first child store
+			id := live.pickAbsent(r, txIdsD)
+			if !safe && r.chance(1, 2) {
+				id = live.pick(r, txIdsAll)
+			}
+			s = txStep{kind: "op", op: "cr", store: 'D', id: id, f: txRandomFields(r, p, safe, id), rank: pick(r, []string{"g1", "g2", ""})}
 		} else {
 			id := live.pickAbsent(r, txIdsC)
 			if !safe && r.chance(1, 4) {
@@ -551,16 +698,19 @@ func txRandomOp(r *rng, p txProfile, safe bool, live txLive) txStep {
 		live[s.id] = true
 	case 3, 4, 5:
 		id := live.pick(r, txIdsAll)
-		store := "PC"[r.intn(2)]
+		store := "PCD"[r.intn(3)]
 		if store == 'C' && r.chance(2, 3) {
 			id = live.pick(r, txIdsC)
 		}
+		if store == 'D' && r.chance(2, 3) {
+			id = live.pick(r, []string{"d1", "d2", "b1"})
+		}
 		s = txStep{kind: "op", op: "up", store: store, id: id, f: txRandomFields(r, p, safe, id), rank: pick(r, []string{"k1", "k3"})}
 	case 6, 7, 8:
-		s = txStep{kind: "op", op: "de", store: "PC"[r.intn(2)], id: live.pick(r, txIdsAll)}
+		s = txStep{kind: "op", op: "de", store: "PCD"[r.intn(3)], id: live.pick(r, txIdsAll)}
 		delete(live, s.id)
 	default:
-		s = txStep{kind: "op", op: "dw", store: "PC"[r.intn(2)], query: pick(r, []string{"all", "name", "name"}), qname: pick(r, []string{"n1", "n2", "n3", "s_p1"})}
+		s = txStep{kind: "op", op: "dw", store: "PCD"[r.intn(3)], query: pick(r, []string{"all", "name", "name"}), qname: pick(r, []string{"n1", "n2", "n3", "s_p1"})}
 		if !safe && r.chance(1, 6) {
 			s.query = "bad"
 		}
@@ -591,13 +741,17 @@ func txRandomCase(r *rng, p txProfile) string {
 	live := txLive{}
 	if r.chance(1, 2) {
 		c.txs = append(c.txs, txSetupTx())
-		live["p1"], live["c1"] = true, true
+		live["p1"], live["c1"], live["d1"], live["b1"] = true, true, true, true
 	}
 	// a case with swallowed errors keeps to values that cannot fail in the middle of a write
 	safe := p.swallow && r.chance(1, 3)
 	if r.chance(1, 2) {
 		c.ixP = txRandomIxRegs(r, 2, txIdsAll, safe)
 		c.ixC = txRandomIxRegs(r, 2, txIdsAll, safe)
+		c.ixD = txRandomIxRegs(r, 2, txIdsAll, safe)
+	}
+	if r.chance(2, 3) {
+		c.regsD = txRandomRegs(r, p.listeners, txIdsAll)
 	}
 	for t := 0; t < ntx; t++ {
 		tx := txTx{mode: 'u', reuse: r.chance(1, 3)}
@@ -661,11 +815,14 @@ func txMatrixCases(emit func(string)) {
 				opCreate('P', "p1", "n1", []string{"r"}, nil, ""),
 				opCreate('C', "c1", "n2", nil, sp("p1"), "k1"),
 				opCreate('P', "p2", "n3", nil, nil, ""),
+				// data in the second child store over an entity of the first one
+				opCreate('D', "c1", "n2", nil, sp("p1"), "g1"),
 			}},
 			{mode: 'u', steps: []txStep{
 				opUpdate('P', "p1", "n1b", []string{"s", "r"}, nil, ""),
 				opUpdate('P', "c1", "n2b", nil, sp("p2"), ""),
 				opUpdate('C', "c1", "n2c", []string{"t"}, nil, "k2"),
+				opUpdate('D', "c1", "n2d", nil, nil, "g2"),
 				{kind: "ac", tag: 2},
 			}},
 			{mode: 'u', steps: []txStep{
@@ -687,16 +844,22 @@ func txMatrixCases(emit func(string)) {
 	}
 	for _, style := range []byte("tfui") {
 		for _, types := range typeLists {
-			for _, onChild := range []bool{false, true} {
+			for _, on := range []byte("PCD") {
 				c := &txCase{txl: 1, txs: history()}
 				reg := txReg{listener: true, style: style, types: types}
 				other := []txReg{{style: 'u'}, {listener: true, style: 'u', types: []byte{'c', 'u', 'd'}}}
-				if onChild {
+				switch on {
+				case 'C':
 					c.regsC = []txReg{reg, {style: 't'}}
 					c.regsP = other
-				} else {
+				case 'D':
+					c.regsD = []txReg{reg, {style: 't'}}
+					c.regsP = other
+					c.regsC = other[1:]
+				default:
 					c.regsP = []txReg{{style: 't'}, reg}
 					c.regsC = other
+					c.regsD = other[1:]
 				}
 				emit(txCaseLine(c))
 			}
@@ -716,7 +879,7 @@ func txGenCommon(tier string, seed uint64, out *bufio.Writer, faultQuick, faultT
 	txEnumFaults(1, []byte{'u', 'b'}, emit)
 	if tier == "thorough" {
 		for n := 2; n <= faultThoroughLen; n++ {
-			txEnumFaults(n, []byte{'u'}, emit)
+			txEnumFaultsOver(txPairOps(), n, []byte{'u'}, emit)
 		}
 		if faultThoroughLen >= 2 {
 			// bodies of three operations over the core alphabet, exhaustively
